@@ -37,6 +37,10 @@ def split_sieve(buf: bytes):
                 break
             cur.append(line + buf[line_end:line_end + ln + 2])
             pos = line_end + ln + 2
+            if _END.match(line):        # the final line of a response may carry its text as a literal
+                out.append(cur)
+                cur = []
+                start_resp = pos
             continue
         cur.append(line)
         pos = line_end
